@@ -5,7 +5,7 @@
 (* A result record is [k |-> "ok" | "exc", v |-> runs, t |-> exception    *)
 (* class, n |-> len(result), s |-> result.s]                              *)
 (***************************************************************************)
-EXTENDS ColorStr, FmtImpl, Spelling, Parse, Scan, Width, Wrap
+EXTENDS ColorStr, FmtImpl, Spelling, Parse, Scan, Splitter, StrMethods
 
 V(clause, exact) == <<IF clause = "ok" THEN "ok" ELSE "fail", IF clause = "ok" THEN "" ELSE clause,
                       IF exact THEN "exact" ELSE "drift">>
@@ -150,33 +150,34 @@ JudgeWslice(e) ==
           IN IF Cols(rc) # AbsWsliceCols(cs, e.a, e.b) THEN V("Wslice.Columns", FALSE)
              ELSE IF ~IsSubseq(ZeroCells(rc), ZeroCells(cs)) THEN V("Wslice.ZeroWidthInvented", FALSE)
              ELSE IF ~Consistent(e.res) THEN V("Wslice.LenText", FALSE)
-             ELSE V("ok", TRUE)
+             ELSE V("ok", e.res.v = ImplWslice(e.f, e.a, e.b))
 
 (* ---------------------------------------------------------------- C11 *)
 JudgeWsplit(e) ==
   IF e.res.k # "ok" THEN V("Wsplit.Raised", FALSE)
   ELSE LET lines == [j \in 1..Len(e.res.vs) |-> Cells(e.res.vs[j])]
            c == WrapVerdict(lines, Cells(e.f), e.cols)
-       IN IF c # "ok" THEN V("Wsplit." \o c, FALSE) ELSE V("ok", TRUE)
+       IN IF c # "ok" THEN V("Wsplit." \o c, FALSE) ELSE V("ok", e.res.vs = ImplWsplit(e.f, e.cols))
 
 (* ---------------------------------------------------------------- C16 *)
 JudgeLinesplit(e) ==
   IF e.res.k # "ok" THEN V("Linesplit.Raised", FALSE)
   ELSE LET c == LinesplitVerdict([j \in 1..Len(e.res.vs) |-> Cells(e.res.vs[j])], Cells(e.f.v), e.cols)
-       IN IF c # "ok" THEN V("Linesplit." \o c, FALSE) ELSE V("ok", TRUE)
+       IN IF c # "ok" THEN V("Linesplit." \o c, FALSE) ELSE V("ok", e.res.vs = ImplLinesplit(e.f.v, e.cols))
 
 (* ---------------------------------------------------------------- C15 *)
 \* empty runs' attributes count as attributes the original had (weakest reading)
 EmptyRunAtts(f) == LET es == SelectSeq(f, LAMBDA r : r[1] = <<>>) IN [k \in 1..Len(es) |-> Disp(es[k][2])]
-PiecesVerdict(pfx, res, f, ranges, ref) ==
+PiecesVerdict(pfx, res, f, ranges, ref, hasImpl, impl) ==
   IF res.k # "ok" THEN V(pfx \o ".Raised", FALSE)
   ELSE IF [j \in 1..Len(res.vs) |-> Text(res.vs[j])] # ref THEN V(pfx \o ".TextAgreesWithStr", FALSE)
   ELSE IF Len(ranges) # Len(ref) \/ [j \in 1..Len(ranges) |-> TextOfCells(Ranges(Cells(f), ranges)[j])] # ref THEN V(pfx \o ".MachinerySpecVsPython", FALSE)
   ELSE IF [j \in 1..Len(res.vs) |-> Cells(res.vs[j])] # Ranges(Cells(f), ranges) THEN V(pfx \o ".PieceFormatting", FALSE)
-  ELSE V("ok", TRUE)
+  ELSE V("ok", IF hasImpl THEN res.vs = impl ELSE TRUE)
 JudgeSplit(e) ==
-  PiecesVerdict("Split", e.res, e.f, IF e.regex = 1 THEN e.ranges ELSE SplitRanges(Text(e.f), e.sep), e.ref)
-JudgeSplitlines(e) == PiecesVerdict("Splitlines", e.res, e.f, SplitlinesRanges(Text(e.f), e.keepends), e.ref)
+  PiecesVerdict("Split", e.res, e.f, IF e.regex = 1 THEN e.ranges ELSE SplitRanges(Text(e.f), e.sep), e.ref,
+                e.regex # 1, IF e.regex = 1 THEN <<>> ELSE ImplSplit(e.f, e.sep))
+JudgeSplitlines(e) == PiecesVerdict("Splitlines", e.res, e.f, SplitlinesRanges(Text(e.f), e.keepends), e.ref, TRUE, ImplSplitlines(e.f, e.keepends))
 
 JudgeJust(e) ==
   LET cs == Cells(e.f)
@@ -184,7 +185,7 @@ JudgeJust(e) ==
      ELSE IF Text(e.res.v) # e.ref THEN V("Just.TextAgreesWithStr", FALSE)
      ELSE IF ~NoInvented(Cells(e.res.v), cs, EmptyRunAtts(e.f)) THEN V("Just.InventedFormatting", FALSE)
      ELSE IF ~Consistent(e.res) THEN V("Just.LenText", FALSE)
-     ELSE V("ok", TRUE)
+     ELSE V("ok", e.fill # 0 \/ e.res.v = (IF e.side = "ljust" THEN ImplLjust(e.f, e.w) ELSE ImplRjust(e.f, e.w)))
 
 \* delegated str methods: text results carry exactly the formatting shared by all characters;
 \* list results likewise per element; other answers equal str's answer (both logged as repr text)
